@@ -16,7 +16,8 @@ Record Valid : Prop := {
   v_minmax : forall c, c < nc -> c_min (crs c) <= c_max (crs c);
   v_choice : forall p ch, In ch (p_choices (prt p)) -> ch_course ch < nc /\ (0 <= ch_pen ch <= maxpen parts)%Z;
   v_choice_nodup : forall p, NoDup (map ch_course (p_choices (prt p)));
-  v_pen : (Z.of_nat np * maxpen parts < WEIGHT_OFFSET)%Z
+  v_pen : (Z.of_nat np * maxpen parts < WEIGHT_OFFSET)%Z;
+  v_real : exists p, p < np /\ instr_only parts p = false    (* at least one participant with choices *)
 }.
 
 Lemma NoDup_app_remove_l {A} (l l' : list A) : NoDup (l ++ l') -> NoDup l'.
@@ -96,7 +97,7 @@ Qed.
 Lemma validb_valid : validb courses parts = true -> Valid.
 Proof.
   unfold validb. intros H. repeat (apply andb_true_iff in H; destruct H as [H ?]).
-  rename H into Hc, H2 into Hnd, H1 into Hp, H0 into Hpen.
+  rename H into Hc, H3 into Hnd, H2 into Hp, H1 into Hpen, H0 into Hreal.
   assert (Hcrs : forall c, c < nc -> In (crs c) courses) by (intros c Hc'; apply nth_In; exact Hc').
   rewrite forallb_forall in Hc, Hp.
   assert (Hprt : forall p, p_choices (prt p) <> [] -> In (prt p) parts).
@@ -116,5 +117,6 @@ Proof.
     assert (Hne : p_choices (prt p) <> []) by (rewrite E; discriminate).
     specialize (Hp _ (Hprt p Hne)). apply andb_true_iff in Hp. destruct Hp as [_ Hp]. apply nodupb_spec. exact Hp.
   - apply Z.ltb_lt. exact Hpen.
+  - apply existsb_exists in Hreal. destruct Hreal as (p & Hp' & Hr). apply in_seq in Hp'. apply negb_true_iff in Hr. exists p. split; [lia|exact Hr].
 Qed.
 End V.
